@@ -226,6 +226,10 @@ def reductions(sc):
         c = _cp(sc)
         c["output"]["numrec"] = 0
         yield "output:no_numrec", c
+    if out.get("filename", "out.nc") != "out.nc":
+        c = _cp(sc)
+        del c["output"]["filename"]
+        yield "output:plain_name", c
     if out.get("layout") == "dense":
         c = _cp(sc)
         del c["output"]["layout"]
@@ -265,10 +269,24 @@ def reductions(sc):
         c = _cp(sc)
         c["release"]["header"] = True
         yield "release:header", c
+    for key in ("col_order", "time_styles"):
+        if rel.get(key):
+            c = _cp(sc)
+            del c["release"][key]
+            yield f"release:no_{key}", c
+    if sc["frames"].get("scalar_packed"):
+        c = _cp(sc)
+        del c["frames"]["scalar_packed"]
+        yield "frames:scalar_float", c
+    if sc["frames"].get("time_units", "epoch") != "epoch":
+        c = _cp(sc)
+        c["frames"]["time_units"] = "epoch"
+        yield "frames:epoch_units", c
     for col in list(rel.get("extra", [])):
         if col["name"] != "tag":
             c = _cp(sc)
             c["release"]["extra"] = [x for x in rel["extra"] if x["name"] != col["name"]]
+            c["release"].pop("col_order", None)
             c["output"]["ivars"].pop(col["name"], None)
             if c["output"].get("pvars"):
                 c["output"]["pvars"].pop(col["name"], None)
